@@ -34,60 +34,134 @@ def table : List (Field × Layout) :=
 
 def Layout.mask (l : Layout) : B := BitVec.ofNat 8 (2 ^ l.width - 1) <<< l.lo
 
+
+/-- everything about the table that is decided by evaluation: each field lives in the documented
+byte and its setter visits bit positions `lo, lo+1, …, lo+width-1` of that byte -/
+theorem table_facts : ∀ p ∈ table,
+    p.1.lsb / 8 = p.2.byte ∧ p.1.msb / 8 = p.2.byte ∧ p.2.width ≤ p.1.valBits ∧ p.2.lo + p.2.width ≤ 8 ∧
+    p.1.setPos = List.range' p.2.lo p.2.width := by
+  decide +kernel
+
 /-- every getter reads exactly its documented bits, for every raw buffer -/
 theorem get_layout (f : Field) (l : Layout) (h : (f, l) ∈ table) (buf : Bytes) :
     f.get buf = ((byteAt buf l.byte).toNat / 2 ^ l.lo) % 2 ^ l.width := by
-  sorry
+  obtain ⟨hl, hm, _, _, hp⟩ := table_facts _ h
+  exact Field.get_range f l.byte l.lo l.width hl hm hp buf
 
 /-- every setter changes only its own field's bits, storing the value truncated to the field width -/
 theorem set_layout (f : Field) (l : Layout) (h : (f, l) ∈ table) (buf : Bytes) (v : Nat)
     (hk : l.byte < buf.length) :
     f.set buf v =
       buf.set l.byte ((byteAt buf l.byte &&& ~~~l.mask) ||| (BitVec.ofNat 8 (v % 2 ^ l.width) <<< l.lo)) := by
-  sorry
+  obtain ⟨hl, hm, hv, h8, hp⟩ := table_facts _ h
+  exact Field.set_range f l.byte l.lo l.width hl hm hp h8 hv buf v hk
 
 /-- a read after a write returns the written value (truncated to the field width) -/
 theorem get_set (f : Field) (l : Layout) (h : (f, l) ∈ table) (buf : Bytes) (v : Nat)
     (hk : l.byte < buf.length) : f.get (f.set buf v) = v % 2 ^ l.width := by
-  sorry
+  obtain ⟨_, _, _, h8, _⟩ := table_facts _ h
+  rw [get_layout f l h, set_layout f l h buf v hk, byteAt_set _ _ _ _ hk, if_pos rfl]
+  exact byte_update_same _ _ _ _ h8
 
 /-- a write preserves every other field of the same view and every other byte -/
 theorem set_preserves (f g : Field) (lf lg : Layout) (hf : (f, lf) ∈ table) (hg : (g, lg) ∈ table)
     (buf : Bytes) (v : Nat) (hk : lf.byte < buf.length)
     (hdisj : lf.byte ≠ lg.byte ∨ lf.lo + lf.width ≤ lg.lo ∨ lg.lo + lg.width ≤ lf.lo) :
     g.get (f.set buf v) = g.get buf := by
-  sorry
+  obtain ⟨_, _, _, h8, _⟩ := table_facts _ hf
+  rw [get_layout g lg hg, get_layout g lg hg, set_layout f lf hf buf v hk, byteAt_set _ _ _ _ hk]
+  by_cases hb : lg.byte = lf.byte
+  · rw [if_pos hb, hb]
+    rcases hdisj with hd | hd
+    · exact absurd hb.symm hd
+    · exact byte_update_other _ _ _ _ _ _ h8 hd
+  · rw [if_neg hb]
 
 theorem set_length (f : Field) (buf : Bytes) (v : Nat) : (f.set buf v).length = buf.length := by
-  sorry
+  exact Field.set_length f buf v
 
 /-- PCI vendor ID: 16 bits, most significant byte first -/
 theorem pci_get (buf : Bytes) :
     PciFmt.vendorId.get buf = (byteAt buf 0).toNat * 256 + (byteAt buf 1).toNat := by
-  sorry
+  have e : idxUp 15 0 = idxUp 7 0 ++ idxUp 15 8 := by decide
+  show getLoop posMsb0 buf (idxUp 15 0) 0 % 2 ^ 16 = _
+  rw [e, getLoop_append,
+    getLoop_byte posMsb0 buf (idxUp 7 0) 0 _ (idxUp_byte 7 0 0 rfl rfl) (by decide),
+    getLoop_byte posMsb0 buf (idxUp 15 8) 1 _ (idxUp_byte 15 8 1 rfl rfl) (by decide)]
+  have h0 := (byteAt buf 0).isLt
+  have h1 := (byteAt buf 1).isLt
+  omega
 
 theorem pci_set (buf : Bytes) (v : Nat) (hl : 2 ≤ buf.length) :
     PciFmt.vendorId.set buf v = BitVec.ofNat 8 (v / 256) :: BitVec.ofNat 8 v :: buf.drop 2 := by
-  sorry
+  have e : idxDown 15 0 = idxDown 15 8 ++ idxDown 7 0 := by decide
+  show (setLoop posMsb0 (idxDown 15 0) (buf, v % 2 ^ 16)).1 = _
+  rw [e, setLoop_append,
+    setLoop_byte posMsb0 (idxDown 15 8) 1 buf _ (idxDown_byte 15 8 1 rfl rfl) (by omega) (by decide),
+    setLoop_byte posMsb0 (idxDown 7 0) 0 _ _ (idxDown_byte 7 0 0 rfl rfl) (by simp; omega) (by decide)]
+  have h1 : BitVec.ofNat 8 (v % 2 ^ 16) = BitVec.ofNat 8 v := by
+    apply BitVec.eq_of_toNat_eq; simp
+  have h2 : BitVec.ofNat 8 (v % 2 ^ 16 / 256) = BitVec.ofNat 8 (v / 256) := by
+    apply BitVec.eq_of_toNat_eq; simp; omega
+  rw [h1, h2]
+  match buf, hl with
+  | a :: b :: rest, _ => simp
 
 /-- IANA enterprise number: 32 bits, most significant byte first -/
 theorem iana_get (buf : Bytes) :
     IanaFmt.vendorId.get buf =
       (byteAt buf 0).toNat * 16777216 + (byteAt buf 1).toNat * 65536 + (byteAt buf 2).toNat * 256 +
         (byteAt buf 3).toNat := by
-  sorry
+  have e : idxUp 31 0 = idxUp 7 0 ++ (idxUp 15 8 ++ (idxUp 23 16 ++ idxUp 31 24)) := by decide
+  show getLoop posMsb0 buf (idxUp 31 0) 0 % 2 ^ 32 = _
+  rw [e, getLoop_append, getLoop_append, getLoop_append,
+    getLoop_byte posMsb0 buf (idxUp 7 0) 0 _ (idxUp_byte 7 0 0 rfl rfl) (by decide),
+    getLoop_byte posMsb0 buf (idxUp 15 8) 1 _ (idxUp_byte 15 8 1 rfl rfl) (by decide),
+    getLoop_byte posMsb0 buf (idxUp 23 16) 2 _ (idxUp_byte 23 16 2 rfl rfl) (by decide),
+    getLoop_byte posMsb0 buf (idxUp 31 24) 3 _ (idxUp_byte 31 24 3 rfl rfl) (by decide)]
+  have h0 := (byteAt buf 0).isLt
+  have h1 := (byteAt buf 1).isLt
+  have h2 := (byteAt buf 2).isLt
+  have h3 := (byteAt buf 3).isLt
+  omega
 
 theorem iana_set (buf : Bytes) (v : Nat) (hl : 4 ≤ buf.length) :
     IanaFmt.vendorId.set buf v =
       BitVec.ofNat 8 (v / 16777216) :: BitVec.ofNat 8 (v / 65536) :: BitVec.ofNat 8 (v / 256) ::
         BitVec.ofNat 8 v :: buf.drop 4 := by
-  sorry
+  have e : idxDown 31 0 = idxDown 31 24 ++ (idxDown 23 16 ++ (idxDown 15 8 ++ idxDown 7 0)) := by decide
+  show (setLoop posMsb0 (idxDown 31 0) (buf, v % 2 ^ 32)).1 = _
+  rw [e, setLoop_append, setLoop_append, setLoop_append,
+    setLoop_byte posMsb0 (idxDown 31 24) 3 buf _ (idxDown_byte 31 24 3 rfl rfl) (by omega) (by decide),
+    setLoop_byte posMsb0 (idxDown 23 16) 2 _ _ (idxDown_byte 23 16 2 rfl rfl) (by simp; omega) (by decide),
+    setLoop_byte posMsb0 (idxDown 15 8) 1 _ _ (idxDown_byte 15 8 1 rfl rfl) (by simp; omega) (by decide),
+    setLoop_byte posMsb0 (idxDown 7 0) 0 _ _ (idxDown_byte 7 0 0 rfl rfl) (by simp; omega) (by decide)]
+  have h1 : BitVec.ofNat 8 (v % 2 ^ 32) = BitVec.ofNat 8 v := by
+    apply BitVec.eq_of_toNat_eq; simp
+  have h2 : BitVec.ofNat 8 (v % 2 ^ 32 / 256) = BitVec.ofNat 8 (v / 256) := by
+    apply BitVec.eq_of_toNat_eq; simp; omega
+  have h3 : BitVec.ofNat 8 (v % 2 ^ 32 / 256 / 256) = BitVec.ofNat 8 (v / 65536) := by
+    apply BitVec.eq_of_toNat_eq; simp; omega
+  have h4 : BitVec.ofNat 8 (v % 2 ^ 32 / 256 / 256 / 256) = BitVec.ofNat 8 (v / 16777216) := by
+    apply BitVec.eq_of_toNat_eq; simp; omega
+  rw [h1, h2, h3, h4]
+  match buf, hl with
+  | a :: b :: c :: d :: rest, _ => simp
 
 /-- a transport header is accepted exactly when the reserved bits are zero and the version matches -/
 theorem transport_from_buf (buf : Bytes) (version : B) :
     transportFromBufOk buf version =
       ((byteAt buf 0 &&& 0xF0#8) == 0x00#8 && (byteAt buf 0 &&& 0x0F#8) == version) := by
-  sorry
+  have hA : ∀ x : B, (x.toNat / 2 ^ 4 % 2 ^ 4 = 0) ↔ (x &&& 0xF0#8) = 0x00#8 := by
+    apply forall_byte; decide +kernel
+  have hB : ∀ x : B, x.toNat / 2 ^ 0 % 2 ^ 4 = (x &&& 0x0F#8).toNat := by
+    apply forall_byte; decide +kernel
+  unfold transportFromBufOk
+  rw [get_layout TransportHdr.rsvd ⟨0, 4, 4⟩ (by simp [table]),
+    get_layout TransportHdr.hdrVersion ⟨0, 0, 4⟩ (by simp [table])]
+  simp only [hA, hB, BitVec.toNat_inj, ne_eq]
+  by_cases h1 : (byteAt buf 0 &&& 0xF0#8) = 0x00#8 <;>
+    by_cases h2 : (byteAt buf 0 &&& 0x0F#8) = version <;> simp [h1, h2]
 
 /-- a message-body header exactly when the integrity bit is clear and the type is supported -/
 theorem body_from_buf (buf : Bytes) :
@@ -96,7 +170,19 @@ theorem body_from_buf (buf : Bytes) :
        ((byteAt buf 0 &&& 0x7F#8) == 0x00#8 || (byteAt buf 0 &&& 0x7F#8) == 0x05#8 ||
         (byteAt buf 0 &&& 0x7F#8) == 0x06#8 || (byteAt buf 0 &&& 0x7F#8) == 0x7E#8 ||
         (byteAt buf 0 &&& 0x7F#8) == 0x7F#8)) := by
-  sorry
+  have key : ∀ x : B,
+      (if x.toNat / 2 ^ 7 % 2 ^ 1 ≠ 0 then false
+       else if MsgType.ofByte (BitVec.ofNat 8 (x.toNat / 2 ^ 0 % 2 ^ 7)) = .invalid then false
+       else true) =
+      ((x &&& 0x80#8) == 0x00#8 &&
+       ((x &&& 0x7F#8) == 0x00#8 || (x &&& 0x7F#8) == 0x05#8 ||
+        (x &&& 0x7F#8) == 0x06#8 || (x &&& 0x7F#8) == 0x7E#8 ||
+        (x &&& 0x7F#8) == 0x7F#8)) := by
+    apply forall_byte; decide +kernel
+  unfold bodyFromBufOk
+  rw [get_layout BodyHdr.ic ⟨0, 7, 1⟩ (by simp [table]),
+    get_layout BodyHdr.msgType ⟨0, 0, 7⟩ (by simp [table])]
+  exact key _
 
 end C18
 end Mctp
